@@ -336,6 +336,16 @@ template<typename T> struct TdExec {
             ctx.require(one.get_total_weight() == all.size() && one.get_quantile(0) == mn && one.get_quantile(1) == mx, fp("one-value-then-buffered|extreme-quantiles").c_str(), "quantile(0)=" + hexd(one.get_quantile(0)) + " min " + hexd(mn) + ", quantile(1)=" + hexd(one.get_quantile(1)) + " max " + hexd(mx) + " after " + std::to_string(more) + " more values");
             std::sort(all.begin(), all.end()); const T med = one.get_quantile(0.5); ctx.require(med >= mn && med <= mx && (all.size() < 3 || (med > mn || all[all.size() / 2] == mn)), fp("one-value-then-buffered|median").c_str(), hexd(med));
             ctx.check(); ctx.probe("one_value_then_buffered"); }
+          if ((s.c & 12) == 8) {   // accuracy on a long stream of uniformly spread values: rank error small in the middle, smaller still in the tails. The pinned tree stays below
+            // 0.34/k in the middle and 0.042/k beyond the 2nd / 98th percentile (k 50..400, 30 streams each); 2/k and 0.3/k are demanded
+            static const int ks3[] = { 50, 100, 200 }; const uint16_t k4 = static_cast<uint16_t>(ks3[static_cast<size_t>(s.b) % 3]); const size_t nn = 20000; S acc(k4, talloc<T>(1)); std::vector<T> vals(nn);
+            for (size_t j = 0; j < nn; j++) { vals[j] = value_of(s.b, static_cast<i64>(j), static_cast<i64>(nn), 2); acc.update(vals[j]); }
+            std::sort(vals.begin(), vals.end());
+            for (double q : { 0.001, 0.01, 0.05, 0.25, 0.5, 0.75, 0.95, 0.99, 0.999 }) { const T x = vals[static_cast<size_t>(q * static_cast<double>(nn - 1))];
+              const double truth = (static_cast<double>(std::upper_bound(vals.begin(), vals.end(), x) - vals.begin()) + static_cast<double>(std::lower_bound(vals.begin(), vals.end(), x) - vals.begin())) / 2.0 / static_cast<double>(nn), err = std::fabs(acc.get_rank(x) - truth);
+              const bool tail = q < 0.02 || q > 0.98; const double bound = (tail ? 0.3 : 2.0) / static_cast<double>(k4);
+              if (err > bound) ctx.fail(fp(tail ? "rank-error-in-the-tail-above-what-k-promises" : "rank-error-in-the-middle-above-what-k-promises"), "rank of the " + std::to_string(q) + " quantile off by " + std::to_string(err) + ", allowed " + std::to_string(bound) + " (k=" + std::to_string(k4) + ", " + std::to_string(nn) + " uniformly spread values)"); }
+            ctx.check(); ctx.probe("long_stream_accuracy"); }
           if ((s.c & 12) == 12) {   // a long run of one-value digests merged into one large digest (the aggregator of many tiny producers), on digests of its own: k from a
             // wider range than the run's, since the scale function only degenerates for small batches at large k
             static const int ks2[] = { 50, 100, 200, 250, 400 }; const uint16_t k2 = static_cast<uint16_t>(ks2[static_cast<size_t>(s.b) % 5]);
